@@ -308,3 +308,29 @@ Theorem C13_decoration_stages :
      avx_stage options iflags avx has_mem op0m ops = E_Ok).
 Proof. exact (conj lock_stage_lock (conj rep_stage_rep (conj extra_stage_k avx_stage_ok))). Qed.
 Print Assumptions C13_decoration_stages.
+
+(* ---- the premises of C13_db_row_validates_plain are DERIVED for operands generated from the row itself: for every database row contained in the tables and every
+   mode it lists, the operand list rep_ops (one representative per explicit operand kind: register class / the fixed register, memory of the named size with a mode-sized
+   base, the immediate width's value, a label) validates - through the row-level theorem, not by evaluating validate *)
+Theorem C13_db_rows_representatives_validate : forall row, In row x86_db_rows ->
+  forall zq x64, test (dr_mode row) (mode_bit x64) = true ->
+  validate x86_vtables zq x64 false {| vi_id := dr_inst row; vi_options := 0; vi_extra_type := 0; vi_extra_id := 0 |} (rep_ops x64 row) = E_Ok.
+Proof.
+  exact (fun row Hin zq => rep_validates_both x86_vtables zq row x86_sigs_wf
+           (forallb_In _ (row_present x86_vtables) x86_db_rows x86_db_rows_present row Hin)
+           (forallb_In _ (rep_premises_both x86_vtables) x86_db_rows x86_rep_premises row Hin)).
+Qed.
+Print Assumptions C13_db_rows_representatives_validate.
+
+(* ---- the emitter API: every instruction method of a64::Emitter / x86::Emitter (ASMJIT_INST_* lines of a64emitter.h / x86emitter.h, re-read on every run) is bound to an
+   instruction id that carries the method's name (x86: the method's name looks up to that id, which also covers aliases such as sal -> shl), except the vendored
+   exceptions (a64 stlr/stlrb/stlrh, bound to the STLLR* ids in the reference tree: known finding) *)
+Theorem C13_api_methods_name_their_ids_a64 : forall m id, In (m, id) a64_api_methods ->
+  existsb (str_eqb m) a64_api_exceptions = true \/ name_of a64_names id = m.
+Proof. exact (api_methods_a64 a64_names a64_api_methods a64_api_exceptions a64_api_methods_ok). Qed.
+Print Assumptions C13_api_methods_name_their_ids_a64.
+
+Theorem C13_api_methods_name_their_ids_x86 : forall m id, In (m, id) x86_api_methods ->
+  existsb (str_eqb m) x86_api_exceptions = true \/ x86_string_to_inst_id x86_names x86_aliases m = id.
+Proof. exact (api_methods_x86 x86_names x86_aliases x86_api_methods x86_api_exceptions x86_api_methods_ok). Qed.
+Print Assumptions C13_api_methods_name_their_ids_x86.
